@@ -20,7 +20,7 @@ ASSUMPTIONS = ['the unprivileged location set: R0-R14_usr, PC, APSR.NZCVQ/GE, CP
 SHARD_TIMEOUT = {'quick': 900, 'thorough': 7200}
 
 CTXS = [('v6-pmsa-sec', 'off'), ('v6-pmsa-sec', 'mpu'), ('v7-pmsa-r', 'mpu'), ('v7-vmsa-sec', 'off'),
-        ('v7-vmsa-sec', 'mmu'), ('v7-vmsa-virt', 'off'), ('v5-pmsa', 'off'), ('v6-vmsa', 'mmu')]
+        ('v7-vmsa-sec', 'mmu'), ('v7-vmsa-virt', 'off'), ('v5-pmsa', 'off'), ('v6-vmsa', 'mmu'), ('v7-vmsa-virt-impdef', 'off')]
 
 USER_REGS = {'R%dusr' % i for i in range(13)} | {'SPusr', 'LRusr', 'PC', 'event_register', 'wfe', 'wfi'}
 CPSR_USER_MASK = 0xF8000000 | 0x06000000 | 0x0000FC00 | (1 << 24) | 0x000F0000 | (1 << 9) | (1 << 5)
